@@ -184,7 +184,11 @@ func reopenAfterClose(scn Scenario) []ctl.Event {
 	evs := []ctl.Event{}
 	SegVersion = scn.Opts.SegVersion
 	w := reopenWriter(scn.Opts.Path, scn.Ids)
-	evs = append(evs, ctl.Event{"ev": "Reopened", "mode": "writer", "err": w.Err, "docs": w.Docs, "died": w.Died})
+	ev := ctl.Event{"ev": "Reopened", "mode": "writer", "err": w.Err, "docs": w.Docs, "died": w.Died}
+	if w.Obs != nil {
+		ev["obs"] = *w.Obs
+	}
+	evs = append(evs, ev)
 	return evs
 }
 
@@ -584,6 +588,7 @@ func (d *Driver) RunFamily(fam string, runs int) {
 			scn.Name = "free"
 			scn.Free, scn.RootObs, scn.Readers, scn.Second, scn.MergeWindow = true, false, 0, false, 0
 			scn.Opts.Path = "FS"
+			scn.FreeReaders = r.Intn(4)
 			nc := 2 + r.Intn(5)
 			scn.Clients = nil
 			for c := 0; c < nc; c++ {
